@@ -33,3 +33,7 @@ CHECKS["C04"] = dict(
     text="Delete exactness: for shape x template shards (indexes incl. negative, slices, searches, wildcards, deep traversal, AoH pass-through, duplicates through collector addition, empty-container targets) the real Processor.delete_nodes runs symbolically and the resulting document must equal a plain-data model with exactly the positions selected by the C01 reference model removed and everything else in its original order; deleting the root is refused and leaves the document unchanged; delete_gathered_nodes over two gathered elements.",
     note="Which nodes a path matches is taken from the C01 reference model (validated against the repository's tests).")
 del NA["C04"]
+CHECKS["C03"] = dict(
+    text="Set exactness: (frame) for shape x template shards the real Processor.set_value runs symbolically with symbolic leaves, index and new value; the document afterwards must equal the model 'matched positions (from the C01 reference model) hold the new value, everything else - values, order, keys - unchanged'; (pool) leaves drawn by selectors from a pool of real Python objects so that equal scalars share one object and values are spelled like keys - only the addressed position may change; (alias) an anchored scalar aliased under keys and inside lists is updated at every alias position through any of its paths, keeps its anchor and stays one shared node; (history) 2-step set/create/delete histories vs a plain-data model. Pool, alias and history shards dump the result with yamlpath's editor and reload it with its strict loader (concrete, on every explored path).",
+    note="Object identity of interned scalars cannot be a solver term: the pool/alias shards are solver-enumerated finite spaces (stated in evidence as kind S). New value in [-1,1] (C-constructed ruamel scalar).")
+del NA["C03"]
